@@ -58,7 +58,13 @@ def main():
                 if r.get("caught"):
                     own = f"caught ({r.get('replay_kind')}: `{r.get('replay_signature')}`)"
                 elif r:
-                    own = "**missed**"
+                    o2 = load(os.path.join(sd, "outcome_after_strengthening.json")) or {}
+                    r2 = (o2.get("checks") or {}).get(pid, {})
+                    if r2.get("caught"):
+                        own = (f"missed by the first version of the check; caught after strengthening "
+                               f"({r2.get('replay_kind')}: `{r2.get('replay_signature')}`)")
+                    else:
+                        own = "**missed**"
                 else:
                     own = "not run"
                 others = []
